@@ -265,9 +265,9 @@ func (od *operands) checkUntouched(T set, variant string, col *collector) {
 
 // stepResult is what one applied op looked like.
 type stepResult struct {
-	after  set
-	grew   bool
-	viol   bool
+	after   set
+	grew    bool
+	viol    bool
 	paniced bool
 }
 
@@ -275,8 +275,12 @@ type stepResult struct {
 // ctx describes the sequence so far, for messages.
 func (fx *fixture) apply(p gcrypto.CommonMessageSignatureProof, M set, o *op, od *operands, col *collector, ctx func() string) stepResult {
 	// signature = clause : scheme : operation : what went wrong : kind of offer ("ok" = uncorrupted)
-	sigp := func(clause, detail string) string { return fmt.Sprintf("%s:%s:%s%s:%s", clause, fx.scheme, o.kind, detail, o.tag) }
-	where := func() string { return fmt.Sprintf("%s n=%d, %s, then %s on signer set %s", fx.scheme, fx.n, ctx(), o.label, setStr(M)) }
+	sigp := func(clause, detail string) string {
+		return fmt.Sprintf("%s:%s:%s%s:%s", clause, fx.scheme, o.kind, detail, o.tag)
+	}
+	where := func() string {
+		return fmt.Sprintf("%s n=%d, %s, then %s on signer set %s", fx.scheme, fx.n, ctx(), o.label, setStr(M))
+	}
 	var res gcrypto.SignatureProofMergeResult
 	var err error
 	var pi *panicInfo
